@@ -7,7 +7,10 @@
   CAPREG    every (kind, lookup key) the serializer can dispatch through a union is registered in the lookup
   BORROW    slice reads reach visit_borrowed, and the string/bytes visitors reach visit_borrowed_str/bytes
   LEPAIR    to_le_bytes (ser) <-> from_le_bytes (de) for float and double
-  shared    DECSCALE + FREEZEMAP (c02), SLICE / VARINT / FIXEDBUF reading primitives (c11): necessary for round trips
+  ENUMSYM   an Avro enum reaches the caller by symbol text through every hint a Rust enum / identifier / string uses
+            (identifier, any, str, string), never by bare position: the serializer resolves unit variants by name
+  shared    DECSCALE + FREEZEMAP (c02), SLICE / VARINT / FIXEDBUF reading primitives (c11), POOLCLEAN (c14: pooled
+            scratch buffers come back empty), resolution rules (c07): necessary for round trips
 It does NOT decide value equality of round trips.
 """
 from ..lib import *
